@@ -3,6 +3,7 @@ CONSTANTS
   GenMode = TRUE
   GenDepth = 5
   MaxT = 40
+  MaxReloads = 0
   MaxN = 2
   MaxAdm = 100
   RuleSets <- SetsSmall
